@@ -47,8 +47,8 @@ def build_stub_net(path_cpu, n_chars, height=32, seed=0, gain=0.6, pad_class=-1)
     return net
 
 
-def write_ocr_json(dirname, n_chars=None, height=32, seed=0, gain=0.6, pad_class=-1):
-    chars = CHARS if n_chars is None else CHARS[:n_chars]
+def write_ocr_json(dirname, n_chars=None, height=32, seed=0, gain=0.6, pad_class=-1, chars=None):
+    chars = list(chars) if chars is not None else (CHARS if n_chars is None else CHARS[:n_chars])
     ck = os.path.join(dirname, 'stub.pt')
     build_stub_net(ck + '.cpu', len(chars), height=height, seed=seed, gain=gain, pad_class=pad_class)
     cfg = dict(line_px_height=height, line_vertical_scale=1.0, checkpoint='stub.pt', characters=chars, net_name='stub')
@@ -58,10 +58,10 @@ def write_ocr_json(dirname, n_chars=None, height=32, seed=0, gain=0.6, pad_class
     return p, chars
 
 
-def make_engine(dirname, batch_size=8, height=32, seed=0, gain=0.6, pad_class=-1):
+def make_engine(dirname, batch_size=8, height=32, seed=0, gain=0.6, pad_class=-1, chars=None):
     import torch
     from pero_ocr.ocr_engine.pytorch_ocr_engine import PytorchEngineLineOCR
-    p, chars = write_ocr_json(dirname, height=height, seed=seed, gain=gain, pad_class=pad_class)
+    p, chars = write_ocr_json(dirname, height=height, seed=seed, gain=gain, pad_class=pad_class, chars=chars)
     return PytorchEngineLineOCR(p, torch.device('cpu'), batch_size=batch_size), chars
 
 
